@@ -205,9 +205,7 @@ func init() {
 			for _, d := range tblDeprecated {
 				d = strings.TrimSuffix(d, "+")
 				for i, a := range tblActive {
-					if !thorough() && (i+len(d))%4 != 0 {
-						continue
-					}
+					_ = i
 					res.Evaluations += 2
 					count("deprecated_x_active_with")
 					if r := implSat(d, []string{a + " WITH " + e}); r.panicv != nil {
@@ -513,6 +511,30 @@ func init() {
 				}
 				count("boundary_sizes")
 				if f := c04String(text, comp); f != nil {
+					fail(*f)
+				}
+			}
+		}
+		// reference names that look like operators, between complete operands with the operators missing; and spelling
+		// experiments on special ids / bases that are no ids themselves (not passed through the implementation's validity filter)
+		for _, rn := range []string{"AND", "OR", "WITH", "and", "dual.or.commercial", "MIT"} {
+			for _, c := range []string{"MIT LicenseRef-%s ISC", "MIT DocumentRef-%s ISC", "MIT AND LicenseRef-%s", "MIT LicenseRef-%s Classpath-exception-2.0",
+				"(MIT LicenseRef-%s LicenseRef-x) AND ISC", "MIT DocumentRef-%s:LicenseRef-x ISC", "MIT WITH LicenseRef-%s", "MIT LicenseRef-%s LicenseRef-%s ISC"} {
+				count("ref_name_probes")
+				if f := c04String(strings.ReplaceAll(c, "%s", rn), -1); f != nil {
+					fail(*f)
+				}
+			}
+		}
+		for _, wd := range append(append([]string{}, specialIDs...), unlistedBases...) {
+			wd = strings.TrimSuffix(wd, "+")
+			for _, suf := range []string{"", "+", "-or-later", "-only", "-or-later+", "-only+"} {
+				w2 := wd
+				if rng.Intn(3) == 0 {
+					w2 = caseMut(wd, rng.Intn(3))
+				}
+				count("spelling_experiments")
+				if f := c04String(w2+suf, -1); f != nil {
 					fail(*f)
 				}
 			}
@@ -1025,6 +1047,31 @@ func init() {
 			rec(nil)
 			flushCorr()
 		}
+		// ValidateLicenses on LONG lists with one out-of-grammar entry at EVERY position (work split into chunks skips the
+		// entries at the chunk borders when the bounds are off by one)
+		for _, n := range []int{256, 257, 258, 259, 300, scale(515, 1030)} {
+			l := make([]string, n)
+			for i := range l {
+				l[i] = tblActive[(i*37+n)%len(tblActive)]
+			}
+			step := 1
+			if !thorough() && n != 258 && n != 259 {
+				step = 7
+			}
+			for pos := 0; pos < n; pos += step {
+				saved := l[pos]
+				l[pos] = "MIT AND"
+				v := implVal(l)
+				res.Evaluations++
+				count("long_list_one_bad_entry")
+				if v.panicv != nil || v.ok || len(v.invalid) != 1 || v.invalid[0] != "MIT AND" {
+					fail(failure{Stream: "oracle", What: fmt.Sprintf("ValidateLicenses does not report the one out-of-grammar entry at index %d of a list of %d", pos, n), Case: &kase{Allowed: append([]string{}, l...), Extra: map[string]string{"index": itoa(pos)}}, Impl: v.String(), Expected: "false [MIT AND]"})
+					l[pos] = saved
+					break
+				}
+				l[pos] = saved
+			}
+		}
 		// every listed id EXTENDED by id characters (fixed-width keys truncate; the longest ids are where it shows): no such
 		// word is a listed id unless it happens to be one
 		for _, id := range append(append(append([]string{}, tblActive...), tblDeprecated...), tblExceptions...) {
@@ -1106,7 +1153,7 @@ func init() {
 		}
 		// reference names that look like operators or contain operator words between dots, in every position
 		for _, rn := range []string{"AND", "OR", "WITH", "and", "dual.or.commercial", "a.and.b", "x.with.y", "MIT", "MIT-or-later"} {
-			for _, c := range []string{"MIT LicenseRef-%s ISC", "MIT AND LicenseRef-%s", "LicenseRef-%s AND MIT", "MIT LicenseRef-%s Classpath-exception-2.0",
+			for _, c := range []string{"MIT LicenseRef-%s ISC", "MIT DocumentRef-%s ISC", "MIT LicenseRef-%s LicenseRef-%s ISC", "MIT AND LicenseRef-%s", "LicenseRef-%s AND MIT", "MIT LicenseRef-%s Classpath-exception-2.0",
 				"(MIT LicenseRef-%s LicenseRef-x) AND ISC", "DocumentRef-%s:LicenseRef-%s OR MIT", "MIT DocumentRef-%s:LicenseRef-x ISC", "LicenseRef-%s", "LicenseRef-%s+", "MIT WITH LicenseRef-%s"} {
 				text := strings.ReplaceAll(c, "%s", rn)
 				res.Evaluations++
